@@ -255,9 +255,11 @@ func deleteFilteredData[T any](remoteWrite bool, existingData []T, filterData *F
 
 	var result []T
 	for i := range existingData {
-		writeAllowed := writeAllowed(existingData[i])
-		if !writeAllowed && remoteWrite {
+		// only items that are addressed by the filter may let a remote write fail, and they are kept
+		addressed := filterData.Selector == nil || filterData.SelectorMatch(util.Ptr(existingData[i]))
+		if addressed && remoteWrite && !writeAllowed(existingData[i]) {
 			success = false
+			result = append(result, existingData[i])
 			continue
 		}
 
